@@ -102,8 +102,8 @@ theorem breakpoints_contract (comb : List Nat) (buf : Nat) (hb : 1 ≤ buf)
   unfold mergeBreakpoints validBreakpoints
   obtain ⟨r1, r2, r3, r4⟩ := breakLoop_spec comb buf _ hb hc comb.length 0 0 (by have := hc.len; omega)
     h0.symm (by omega)
-  simp only [Bool.and_eq_true, decide_eq_true_eq, Bool.not_eq_true', List.isEmpty_eq_false_iff]
-  exact ⟨⟨⟨⟨trivial, r2⟩, r3⟩, r4⟩, r1⟩
+  simp only [Bool.and_eq_true, decide_eq_true_eq]
+  exact ⟨⟨⟨trivial, r2⟩, r3⟩, r4⟩
 
 /-- the hypotheses hold for the element-wise sum of real row-pointer arrays; concrete instance -/
 example : CombOK [0, 0, 0, 5, 6] 6 :=
